@@ -435,14 +435,32 @@ func (eng *Engine) localEffects(ins ssa.Instruction, s *sorts, res *Effects, wal
 		if mt, ok := x.Map.Type().Underlying().(*types.Map); ok {
 			addMapVars(s, mt, res.Vars)
 		}
+	case *ssa.Send:
+		for _, ev := range eng.chanEventsFor("send", x.Chan) {
+			addEventVars(ev.Name, res.Vars)
+		}
+	case *ssa.Select:
+		for _, st := range x.States {
+			kind := "recv"
+			if st.Dir == types.SendOnly {
+				kind = "send"
+			}
+			for _, ev := range eng.chanEventsFor(kind, st.Chan) {
+				addEventVars(ev.Name, res.Vars)
+			}
+		}
+	case *ssa.UnOp:
+		if x.Op == token.ARROW {
+			for _, ev := range eng.chanEventsFor("recv", x.X) {
+				addEventVars(ev.Name, res.Vars)
+			}
+		}
 	case ssa.CallInstruction:
 		if _, isGo := ins.(*ssa.Go); isGo {
 			// the spawn itself is an event of the spawner; the goroutine's own events are not (they are concurrent),
 			// but what it may write is part of the spawner's may-write summary: it may happen before the spawner returns
-			for _, ev := range eng.eventsFor(x.Common()) {
-				if !ev.Ret {
-					addEventVars(ev.Name, res.Vars)
-				}
+			for _, ev := range eng.spawnEventsFor(x.Common()) {
+				addEventVars(ev.Name, res.Vars)
 			}
 			sub := newEffects()
 			eng.callEffects(x.Common(), s, sub, func(fn *ssa.Function) { sub.add(eng.FuncEffects(fn)) })
@@ -860,15 +878,35 @@ func (eng *Engine) EventEffects(f *ssa.Function) (map[string]bool, bool) {
 		}
 		for _, b := range fn.Blocks {
 			for _, ins := range b.Instrs {
+				switch x := ins.(type) {
+				case *ssa.Send:
+					for _, ev := range eng.chanEventsFor("send", x.Chan) {
+						res.evs[ev.Name] = true
+					}
+				case *ssa.Select:
+					for _, st := range x.States {
+						kind := "recv"
+						if st.Dir == types.SendOnly {
+							kind = "send"
+						}
+						for _, ev := range eng.chanEventsFor(kind, st.Chan) {
+							res.evs[ev.Name] = true
+						}
+					}
+				case *ssa.UnOp:
+					if x.Op == token.ARROW {
+						for _, ev := range eng.chanEventsFor("recv", x.X) {
+							res.evs[ev.Name] = true
+						}
+					}
+				}
 				ci, ok := ins.(ssa.CallInstruction)
 				if !ok {
 					continue
 				}
 				if _, isGo := ins.(*ssa.Go); isGo {
-					for _, ev := range eng.eventsFor(ci.Common()) {
-						if !ev.Ret {
-							res.evs[ev.Name] = true
-						}
+					for _, ev := range eng.spawnEventsFor(ci.Common()) {
+						res.evs[ev.Name] = true
 					}
 					continue
 				}
